@@ -140,12 +140,27 @@ def r3_keys(rep, src):
                              where='%s:%d' % (fn.module.relpath, node.lineno))
     if n < 15:
         raise AnalysisError('only %d lookups in the element tables found' % n)
+    # _unpack_key: on every returning path the key handed out is a case-insensitive string -- _strI(<given name>) or the text of a
+    # field-name token (which is one already)
     u = src.func(PM + ':_unpack_key')
-    t = norm(u.node)
-    if t.count('key = _strI(') >= 2 and 'key = name_token.text' in t:
-        rep.ok('C05.R3', u.site, 'keys are unpacked to the case-insensitive string', '_strI(key) / token text', nontrivial=False)
+    rep.saw_func(u)
+    up = u.params()[0]
+    ups = [p_ for p_ in paths.function_paths(u.node) if p_.outcome[0] == 'return']
+    badk = None
+    for p_ in ups:
+        v = p_.outcome[1]
+        k = v.elts[0] if isinstance(v, ast.Tuple) and len(v.elts) == 3 else None
+        is_token = any(pol and isinstance(t_, ast.Call) and norm(t_.func) == 'isinstance' and norm(t_.args[0]) == up and 'Deb822FieldNameToken' in norm(t_.args[1])
+                       for t_, pol in p_.conds)
+        if isinstance(k, ast.Call) and norm(k.func) == '_strI' and len(k.args) == 1:
+            continue
+        if isinstance(k, ast.Attribute) and k.attr == 'text' and norm(k.value) == up and is_token:
+            continue
+        badk = badk or 'on the path [%s] the key is %s' % (p_.describe()[:100], norm(k)[:50] if k is not None else norm(v)[:50] if v is not None else None)
+    if ups and badk is None:
+        rep.ok('C05.R3', u.site, 'keys are unpacked to the case-insensitive string', '%d returning paths: _strI(key) / token text' % len(ups), nontrivial=False)
     else:
-        rep.fail('C05.R3', u.site, 'keys are unpacked to the case-insensitive string', '_unpack_key does not convert str keys with _strI', where=u.where)
+        rep.fail('C05.R3', u.site, 'keys are unpacked to the case-insensitive string', '_unpack_key does not convert str keys with _strI: %s' % (badk or 'no returning path'), where=u.where)
     # the text of the new field starts with the spelling of the field it replaces (if any), else with the given name:
     # decided on the paths of the function with the locals substituted away
     f = src.func(PM + ':Deb822ParagraphElement.set_field_from_raw_string')
